@@ -1658,6 +1658,11 @@ func init() {
 		},
 	})
 	register(Family{
+		Name: "long-loops", Prop: "C07",
+		Rule: "15 loop templates with a closed-form expected output computed in Go (three-clause for with continue / late break / bound from the document, while with continue, while(true) left by a late break, a loop in a function called per record with a late return, for-in over arrays built by push and taken from the document, over 1- and 2-byte strings, over objects built by a loop (sorted keys, each once) and arrays filled by index, nested loops whose product is the size, loop bodies that call a function and evaluate a match) at iteration counts 10 000-10 003, 20 000, 65 535-65 537, 100 000 and one random size (thorough also 9 999, 32 768, 50 000, 131 072, 250 000, 500 000, 999 000, 1 000 000 and a random size up to 900 000; from 500 000 on without the six heaviest templates); every case is also compared with the model except where the model is too slow or out of fuel (objects above 10 003 keys, index-filled arrays above 20 000, pushed arrays above 20 000 in the quick tier and above 100 000 in the thorough tier, >= 990 000 iterations): those keep the closed-form oracle only (quick tier: also sizes 65 535 and 65 537, two thirds of the templates above 20 000 iterations, and objects except at 10 002)",
+		Gen:  c07GenLongLoops,
+	})
+	register(Family{
 		Name: "control-laws", Prop: "C07",
 		Rule: "small parametric programs with a closed-form expected trace computed in Go: continue on odd i prints the evens (for: post-expression runs; while: increment first), break leaves only the innermost loop, dangling else, return leaves only the function, for-in visits every element once in order (arrays with index, objects with sorted keys, strings by runes with byte offsets), next / exit",
 		Gen: func(r *rand.Rand, tier string, emit func(Case)) {
@@ -1667,6 +1672,213 @@ func init() {
 			}
 		},
 	})
+}
+
+// ---------------------------------------------------------------- long-loops
+//
+// Loops run exactly as long as their condition (or their iterable) says, however
+// many iterations that takes: no hidden iteration limit in while, the three-clause
+// for, or for-in over arrays, strings and objects.
+
+type c07Long struct {
+	name     string
+	prog     string
+	doc      string
+	want     string
+	implOnly bool // the model is too slow for this size: closed-form oracle only
+}
+
+// c07StrOfLen: jqawk statements that build a string of exactly n copies of unit in `s`
+// without a loop (binary decomposition).
+func c07StrOfLen(n int, unit string) string {
+	var sb strings.Builder
+	fmt.Fprintf(&sb, "s = ''\n  p = %s\n", mustStrLit(unit))
+	for n > 0 {
+		if n&1 == 1 {
+			sb.WriteString("  s = s + p\n")
+		}
+		n >>= 1
+		if n > 0 {
+			sb.WriteString("  p = p + p\n")
+		}
+	}
+	return sb.String()
+}
+
+// c07LongCases: the templates for iteration count n. slowModel(kind, n) decides ImplOnly.
+func c07LongCases(r *rand.Rand, n int, tier string) []c07Long {
+	var cs []c07Long
+	add := func(name, prog, doc, want string, implOnly bool) {
+		cs = append(cs, c07Long{name, prog, doc, want, implOnly})
+	}
+	docN := fmt.Sprintf(`{"n": %d}`, n)
+	tooLong := n >= 1000000 // the model's evaluation fuel (1 000 000) ends below this
+	// 1. three-clause for: count body and post separately, continue on odd i, bound from the document
+	{
+		body, post := 0, 0
+		i := 0
+		for i = 0; i < n; post++ {
+			i++
+			if i%2 == 0 {
+				continue
+			}
+			body++
+		}
+		add("for-continue", "{\n  body = 0; post = 0\n  for (i = 0; i < $.n; post++) { i++; if (i % 2 == 0) continue; body++ }\n  print $.n, i, body, post\n}\n",
+			docN, fmt.Sprintf("%d %d %d %d\n", n, i, body, post), tooLong)
+	}
+	// 2. plain counting for, literal bound, in BEGIN
+	add("for-count", fmt.Sprintf("BEGIN { for (i = 0; i < %d; i++) k++\n print i, k }\n", n), "", fmt.Sprintf("%d %d\n", n, n), tooLong)
+	// 3. for with a break at a late iteration (or never)
+	{
+		b := n - 1 - r.Intn(3)
+		if chance(r, 0.3) {
+			b = n + 5
+		}
+		cnt, i := 0, 0
+		for i = 0; i < n; i++ {
+			if i == b {
+				break
+			}
+			cnt++
+		}
+		add("for-late-break", fmt.Sprintf("BEGIN { for (i = 0; i < %d; i++) { if (i == %d) break\n c++ }\n print i, c }\n", n, b), "", fmt.Sprintf("%d %d\n", i, cnt), tooLong)
+	}
+	// 4. while with continue after the increment
+	{
+		sum, w := 0, 0
+		for w < n {
+			w++
+			if w%3 == 0 {
+				continue
+			}
+			sum++
+		}
+		add("while-continue", "{\n  w = 0\n  while (w < $.n) {\n    w++\n    if (w % 3 == 0) continue\n    t++\n  }\n  print w, t\n}\n", docN, fmt.Sprintf("%d %d\n", w, sum), tooLong)
+	}
+	// 5. while (true) left by a late break
+	add("while-true-break", fmt.Sprintf("BEGIN { i = 0\n while (true) { i++\n if (i >= %d) break }\n print \"left\", i }\n", n), "", fmt.Sprintf("left %d\n", n), tooLong)
+	// 6. the loop inside a function called per record (bounds n-1, n, n+1), return from a late iteration
+	{
+		var want strings.Builder
+		for _, m := range []int{n - 1, n, n + 1} {
+			fmt.Fprintf(&want, "%d %d\n", m, m-1)
+		}
+		add("for-in-function-return", "function last(m) { for (j = 0; true; j++) { if (j == m - 1) return j } }\n{ print $, last($) }\nEND { print j is unknown }\n",
+			fmt.Sprintf("[%d, %d, %d]", n-1, n, n+1), want.String()+"true\n", n+1 >= 1000000)
+	}
+	// 7. for-in over an array built by a loop (push), element and index; continue and a late break
+	{
+		b := n - 1 - r.Intn(2)
+		if chance(r, 0.4) {
+			b = n + 1
+		}
+		c, odd, last := 0, 0, -1
+		for j := 0; j < n; j++ {
+			if j == b {
+				break
+			}
+			c++
+			last = j
+			if j%2 == 1 {
+				continue
+			}
+			odd++
+		}
+		slow := n > 20000 && tier != "thorough" || n > 100000
+		add("forin-array-pushed", fmt.Sprintf("BEGIN {\n  a = []\n  for (i = 0; i < %d; i++) a.push(i * 2)\n  for (x, j in a) {\n    if (j == %d) break\n    c++; last = j\n    if (x != j * 2) bad++\n    if (j %% 2 == 1) continue\n    e++\n  }\n  print a.length(), c, last, e, bad is unknown\n}\n", n, b),
+			"", fmt.Sprintf("%d %d %d %d true\n", n, c, last, odd), slow)
+	}
+	// 8. for-in over an array of the input document
+	{
+		var sb strings.Builder
+		sb.WriteString(`{"a": [`)
+		for j := 0; j < n; j++ {
+			if j > 0 {
+				sb.WriteByte(',')
+			}
+			sb.WriteString(strconv.Itoa(j % 10))
+		}
+		sb.WriteString("]}")
+		sum := 0
+		for j := 0; j < n; j++ {
+			sum += j % 10
+		}
+		add("forin-array-document", "{ for (x, j in $.a) { c++; t += x; last = j }\n print c, t, last }\n", sb.String(), fmt.Sprintf("%d %d %d\n", n, sum, n-1), n > 200000)
+	}
+	// 9. for-in over a string of n characters (1-byte and 2-byte), offset variable
+	{
+		unit := pick(r, []string{"x", "\xc3\xa9"})
+		add("forin-string", "BEGIN {\n  "+c07StrOfLen(n, unit)+"  for (ch, o in s) { c++; last = o; if (ch != "+mustStrLit(unit)+") bad++ }\n  print s.length(), c, last, bad is unknown\n}\n",
+			"", fmt.Sprintf("%d %d %d true\n", n*len(unit), n, (n-1)*len(unit)), n > 500000)
+	}
+	// 10. for-in over an object with n keys built by a loop: every key once, in sorted (string) order
+	{
+		keys := make([]string, n)
+		for j := range keys {
+			keys[j] = strconv.Itoa(j)
+		}
+		sort.Strings(keys)
+		add("forin-object-built", fmt.Sprintf("BEGIN {\n  o = {}\n  for (i = 0; i < %d; i++) o[i] = i\n  prev = ''\n  for (k, v in o) { c++; t += v; if (k != v + '') bad++\n if (c > 1 && !(prev < k)) unsorted++\n prev = k }\n  print o.length(), o is object, c, t, prev, bad is unknown, unsorted is unknown\n}\n", n),
+			"", fmt.Sprintf("%d true %d %d %s true true\n", n, n, n*(n-1)/2, keys[n-1]), n > 10003 || tier != "thorough" && n != 10002)
+		// the same statements without `o = {}`: numeric indices on an unset name create an ARRAY, filled by index
+		add("forin-array-indexed", fmt.Sprintf("BEGIN {\n  for (i = 0; i < %d; i++) o[i] = i\n  for (x, j in o) { c++; t += x; if (x != j) bad++\n last = j }\n  print o.length(), o is array, c, t, last, bad is unknown\n}\n", n),
+			"", fmt.Sprintf("%d true %d %d %d true\n", n, n, n*(n-1)/2, n-1), n > 20000)
+	}
+	// 11. nested loops whose product is n (or just above): for in for, while in for-in, with a late inner break
+	{
+		outer := pick(r, []int{2, 3, 7, 10, 100, 317})
+		inner := (n + outer - 1) / outer
+		total := outer * inner
+		add("nested-for-for", fmt.Sprintf("BEGIN { for (j = 0; j < %d; j++) for (k = 0; k < %d; k++) total++\n print \"nested\", j, k, total }\n", outer, inner),
+			"", fmt.Sprintf("nested %d %d %d\n", outer, inner, total), total >= 990000)
+		// inner while left by break at its last iteration; outer for-in over a literal string
+		o2 := 1 + r.Intn(4)
+		in2 := n / o2
+		add("nested-forin-while", fmt.Sprintf("BEGIN { for (ch in %s) { w = 0\n while (true) { w++; total++\n if (w == %d) break }\n outer++ }\n print outer, w, total }\n", mustStrLit(strings.Repeat("z", o2)), in2),
+			"", fmt.Sprintf("%d %d %d\n", o2, in2, o2*in2), o2*in2 >= 990000)
+		// inner loop long, outer short, continue in the outer loop after the inner one
+		add("nested-long-inner", fmt.Sprintf("{ for (a = 0; a < 3; a++) { for (b = 0; b < $.n; b++) { if (b %% 2) continue\n even++ }\n if (a == 1) continue\n tail++ }\n print a, b, even, tail }\n"),
+			docN, fmt.Sprintf("3 %d %d 2\n", n, 3*((n+1)/2)), 3*n >= 990000)
+	}
+	// 12. the loop body calls a function and evaluates a match (frames pushed and popped n times)
+	add("for-call-match", fmt.Sprintf("function id(v) { return v }\nBEGIN { for (i = 0; i < %d; i++) { t += id(1) + match (i) { 0 => 0, q => 1 } }\n print i, t, q is unknown }\n", n),
+		"", fmt.Sprintf("%d %d true\n", n, 2*n-1), n >= 300000)
+	return cs
+}
+
+func c07GenLongLoops(r *rand.Rand, tier string, emit func(Case)) {
+	sizes := []int{10000, 10001, 10002, 10003, 20000, 65535, 65536, 65537, 100000, 10004 + r.Intn(89000)}
+	if tier == "thorough" {
+		sizes = append(sizes, 9999, 32768, 50000, 131072, 250000, 500000, 999000, 1000000, 100001+r.Intn(800000))
+	}
+	for _, n := range sizes {
+		for ci, c := range c07LongCases(r, n, tier) {
+			if n >= 500000 {
+				switch c.name {
+				case "nested-long-inner", "for-call-match", "forin-array-pushed", "forin-object-built", "forin-array-indexed", "forin-array-document":
+					continue // several seconds on the implementation: kept below the worker's time limit on a loaded machine
+				}
+			}
+			if tier != "thorough" && n > 20000 && (ci+n)%3 != 0 {
+				c.implOnly = true // quick tier: above 20 000 iterations the model is asked for every third template only
+			}
+			var files []File
+			meta := metaProg(c.prog, "template", c.name, "iterations", fmt.Sprint(n), "row", c.name, "col", fmt.Sprint(n))
+			if c.doc != "" {
+				files = []File{{Name: "in.json", Data: []byte(c.doc)}}
+				meta["input"] = c07Short(c.doc)
+			}
+			if tier != "thorough" && (n == 65535 || n == 65537) {
+				c.implOnly = true // quick tier: the model is asked at 65 536 only
+			}
+			if c.implOnly {
+				meta["model"] = "not asked (too slow at this size): closed-form oracle only"
+			}
+			emit(Case{Req: RunReq(c.prog, nil, files, false), Fields: []string{"class", "out"}, Meta: meta, Oracle: c07OutOracle(c.want),
+				ImplOnly: c.implOnly, NonTrivial: func(i Resp) bool { return i["class"] == "ok" }})
+		}
+	}
 }
 
 func c07Law(r *rand.Rand, emit func(Case)) {
